@@ -165,5 +165,7 @@ def opNroots : Handler := fun args impl =>
   | _ => bad
 
 def ops : List (String × Handler) :=
-  [("lll", opLll), ("enum", opEnum), ("chval", opChval), ("muk", opMuk), ("nroots", opNroots)]
+  [("lll", opLll), ("lll.scaled", fun args impl => match args with
+      | [b, k] => if k.toInt?.isSome then opLll [b] impl else bad
+      | _ => bad), ("enum", opEnum), ("chval", opChval), ("muk", opMuk), ("nroots", opNroots)]
 end NTV.Driver.C20
